@@ -1,6 +1,766 @@
 package main
 
-// tryReplay attempts to turn a solver model into a failing execution of the real code.
-func tryReplay(p *Program, rep *FuncReport, o *Obligation, repo, rdir string) (bool, map[string]interface{}) {
-	return false, nil
+import (
+	"bytes"
+	"context"
+	"encoding/json"
+	"fmt"
+	"go/types"
+	"os"
+	"os/exec"
+	"path/filepath"
+	"regexp"
+	"sort"
+	"strconv"
+	"strings"
+	"time"
+
+	"golang.org/x/tools/go/ssa"
+)
+
+// Replay: turn a solver model of a failed obligation into concrete inputs of the real
+// function, run it (in-package test injected with `go test -overlay`, nothing is written
+// into /repo) and check at run time (a) that it does not panic where the contract forbids it
+// and (b) every postcondition that can be compiled to Go. A reproduced failure is a real
+// failing input; anything else is reported as no-failing-input-found.
+
+type oracle struct {
+	script string // obligation script up to and including (check-sat)
+	cache  map[string]string
+	dir    string
+	n      int
 }
+
+func newOracle(smtFile string) (*oracle, error) {
+	data, err := os.ReadFile(smtFile)
+	if err != nil {
+		return nil, err
+	}
+	s := string(data)
+	if i := strings.LastIndex(s, "(get-model)"); i >= 0 {
+		s = s[:i]
+	}
+	return &oracle{script: s, cache: map[string]string{}, dir: filepath.Dir(smtFile)}, nil
+}
+
+// values evaluates terms in one model (z3-new). Returns nil if the solver does not answer sat.
+func (o *oracle) values(terms []string) (map[string]string, error) {
+	out := map[string]string{}
+	var need []string
+	for _, t := range terms {
+		if v, ok := o.cache[t]; ok {
+			out[t] = v
+		} else {
+			need = append(need, t)
+		}
+	}
+	if len(need) == 0 {
+		return out, nil
+	}
+	// pin everything already known so that successive queries see one consistent model
+	var pins strings.Builder
+	keys := make([]string, 0, len(o.cache))
+	for k := range o.cache {
+		keys = append(keys, k)
+	}
+	sort.Strings(keys)
+	body := strings.Replace(o.script, "(check-sat)", "", 1)
+	for _, k := range keys {
+		fmt.Fprintf(&pins, "(assert (= %s %s))\n", k, o.cache[k])
+	}
+	var q strings.Builder
+	q.WriteString(body)
+	q.WriteString(pins.String())
+	q.WriteString("(check-sat)\n")
+	for _, t := range need {
+		fmt.Fprintf(&q, "(get-value (%s))\n", t)
+	}
+	o.n++
+	f := filepath.Join(o.dir, fmt.Sprintf("replay_query_%d.smt2", o.n))
+	if err := os.WriteFile(f, []byte(q.String()), 0o644); err != nil {
+		return nil, err
+	}
+	defer os.Remove(f)
+	ctx, cancel := context.WithTimeout(context.Background(), 20*time.Second)
+	defer cancel()
+	cmd := exec.CommandContext(ctx, "z3-new", "-smt2", "-T:15", "smt.array.extensional=false", f)
+	var buf bytes.Buffer
+	cmd.Stdout = &buf
+	cmd.Run()
+	lines := strings.SplitN(buf.String(), "\n", 2)
+	if strings.TrimSpace(lines[0]) != "sat" || len(lines) < 2 {
+		return nil, fmt.Errorf("model query not sat: %s", firstLines(buf.String(), 3))
+	}
+	// each get-value answer is ((term value))
+	rest := lines[1]
+	sx := parseAllSx(rest)
+	if len(sx) < len(need) {
+		return nil, fmt.Errorf("model query returned %d answers for %d terms", len(sx), len(need))
+	}
+	for i, t := range need {
+		ans := sx[i]
+		if len(ans.kids) == 1 && len(ans.kids[0].kids) == 2 {
+			v := ans.kids[0].kids[1].String()
+			o.cache[t] = v
+			out[t] = v
+		} else {
+			return nil, fmt.Errorf("cannot parse model answer %s", ans.String())
+		}
+	}
+	return out, nil
+}
+
+func parseAllSx(s string) []*sx {
+	var out []*sx
+	depth, start := 0, -1
+	inBar := false
+	for i := 0; i < len(s); i++ {
+		c := s[i]
+		switch {
+		case c == '|':
+			inBar = !inBar
+		case inBar:
+		case c == '(':
+			if depth == 0 {
+				start = i
+			}
+			depth++
+		case c == ')':
+			depth--
+			if depth == 0 && start >= 0 {
+				out = append(out, parseSx(s[start:i+1]))
+				start = -1
+			}
+		}
+	}
+	return out
+}
+
+func (o *oracle) val(term string) (string, error) {
+	m, err := o.values([]string{term})
+	if err != nil {
+		return "", err
+	}
+	return m[term], nil
+}
+
+func smtInt(v string) (int64, bool) {
+	v = strings.TrimSpace(v)
+	if n, ok := litVal(v); ok {
+		return n, true
+	}
+	// "(- 5)" handled by litVal; large values
+	if strings.HasPrefix(v, "(- ") {
+		if n, err := strconv.ParseInt(strings.TrimSuffix(strings.TrimPrefix(v, "(- "), ")"), 10, 64); err == nil {
+			return -n, true
+		}
+	}
+	if n, err := strconv.ParseInt(v, 10, 64); err == nil {
+		return n, true
+	}
+	return 0, false
+}
+
+// ---- input construction ----
+
+type inputBuilder struct {
+	p       *Program
+	vc      *VC
+	o       *oracle
+	pkg     *types.Package
+	imports map[string]string // path -> alias
+	pre     []string          // statements building shared objects
+	objs    map[string]string // "type@ref" -> variable
+	backing map[string]string // "elemtype@arr" -> variable of backing array slice
+	nvar    int
+	fail    string
+}
+
+func (b *inputBuilder) typeStr(t types.Type) string {
+	return types.TypeString(t, func(p *types.Package) string {
+		if p == b.pkg {
+			return ""
+		}
+		if a, ok := b.imports[p.Path()]; ok {
+			return a
+		}
+		a := p.Name()
+		for _, used := range b.imports {
+			if used == a {
+				a = fmt.Sprintf("%s%d", p.Name(), len(b.imports))
+			}
+		}
+		b.imports[p.Path()] = a
+		return a
+	})
+}
+
+func (b *inputBuilder) newVar(prefix string) string {
+	b.nvar++
+	return fmt.Sprintf("%s%d", prefix, b.nvar)
+}
+
+func (b *inputBuilder) heapSym(name string) (string, bool) {
+	q := quoteSym(name + "@0")
+	return q, b.vc.declared[q]
+}
+
+// build returns a Go expression of type t whose value is what `term` denotes in the model.
+func (b *inputBuilder) build(term string, t types.Type, depth int) string {
+	if b.fail != "" {
+		return "nil"
+	}
+	if depth > 6 {
+		b.fail = "input structure too deep"
+		return "nil"
+	}
+	switch u := under(t).(type) {
+	case *types.Basic:
+		v, err := b.o.val(term)
+		if err != nil {
+			b.fail = err.Error()
+			return "0"
+		}
+		switch {
+		case u.Info()&types.IsBoolean != 0:
+			return fmt.Sprintf("%s(%s)", b.typeStr(t), v)
+		case u.Info()&types.IsInteger != 0:
+			n, ok := smtInt(v)
+			if !ok {
+				b.fail = "non-literal integer in model: " + v
+				return "0"
+			}
+			if lo, hi, bounded, _ := intRange(t); bounded && (n < lo || n > hi) {
+				b.fail = fmt.Sprintf("model value %d outside the range of %s", n, t)
+			}
+			return fmt.Sprintf("%s(%d)", b.typeStr(t), n)
+		case u.Info()&types.IsFloat != 0:
+			return fmt.Sprintf("%s(%s)", b.typeStr(t), realToGo(v))
+		case u.Info()&types.IsString != 0:
+			return b.buildString(term, t)
+		}
+	case *types.Pointer:
+		v, err := b.o.val(term)
+		if err != nil {
+			b.fail = err.Error()
+			return "nil"
+		}
+		ref, ok := smtInt(v)
+		if !ok {
+			b.fail = "non-literal reference in model"
+			return "nil"
+		}
+		if ref == 0 {
+			return "nil"
+		}
+		return b.buildObject(ref, u.Elem(), depth)
+	case *types.Slice:
+		return b.buildSlice(term, t, u, depth)
+	case *types.Struct:
+		b.fail = "struct value without leaf symbols"
+		return b.typeStr(t) + "{}"
+	case *types.Interface:
+		dv, err := b.o.val("(if.dyn " + term + ")")
+		if err != nil {
+			b.fail = err.Error()
+			return "nil"
+		}
+		d, _ := smtInt(dv)
+		if d == 0 {
+			return "nil"
+		}
+		if int(d) > len(b.vc.typeByID) {
+			b.fail = "interface value of a dynamic type the verifier did not name"
+			return "nil"
+		}
+		dt := b.vc.typeByID[d-1]
+		if !types.AssignableTo(dt, t) {
+			b.fail = "model picks a dynamic type that does not implement the interface"
+			return "nil"
+		}
+		if pt, ok := under(dt).(*types.Pointer); ok {
+			rv, err := b.o.val("(if.val " + term + ")")
+			if err != nil {
+				b.fail = err.Error()
+				return "nil"
+			}
+			ref, _ := smtInt(rv)
+			if ref == 0 {
+				return fmt.Sprintf("(%s)(nil)", b.typeStr(dt))
+			}
+			return b.buildObject(ref, pt.Elem(), depth)
+		}
+		b.fail = "interface holding a non-pointer value"
+		return "nil"
+	case *types.Array:
+		b.fail = "array-typed input"
+	case *types.Signature:
+		b.fail = "function-typed input"
+	}
+	if b.fail == "" {
+		b.fail = "unsupported input type " + t.String()
+	}
+	return "nil"
+}
+
+func realToGo(v string) string {
+	v = strings.TrimSpace(v)
+	if strings.HasPrefix(v, "(/ ") {
+		parts := strings.Fields(strings.Trim(v, "()"))
+		if len(parts) == 3 {
+			return parts[1] + "/" + parts[2]
+		}
+	}
+	if strings.HasPrefix(v, "(- ") {
+		return "-(" + realToGo(strings.TrimSuffix(strings.TrimPrefix(v, "(- "), ")")) + ")"
+	}
+	return v
+}
+
+func (b *inputBuilder) buildString(term string, t types.Type) string {
+	lv, err := b.o.val("(gs.len " + term + ")")
+	if err != nil {
+		b.fail = err.Error()
+		return `""`
+	}
+	n, _ := smtInt(lv)
+	if n < 0 || n > 4096 {
+		b.fail = "string length in model is unreasonable"
+		return `""`
+	}
+	var terms []string
+	for i := int64(0); i < n; i++ {
+		terms = append(terms, fmt.Sprintf("(select (gs.data %s) (sat %s %d))", term, term, i))
+	}
+	vals, err := b.o.values(terms)
+	if err != nil {
+		b.fail = err.Error()
+		return `""`
+	}
+	bs := make([]byte, n)
+	for i := range bs {
+		x, _ := smtInt(vals[terms[i]])
+		bs[i] = byte(x)
+	}
+	return fmt.Sprintf("%s(%s)", b.typeStr(t), strconv.Quote(string(bs)))
+}
+
+// buildObject materialises the struct (or cell) the reference points to; equal references share one object.
+func (b *inputBuilder) buildObject(ref int64, elem types.Type, depth int) string {
+	key := fmt.Sprintf("%s@%d", elem.String(), ref)
+	if v, ok := b.objs[key]; ok {
+		return v
+	}
+	v := b.newVar("obj")
+	b.objs[key] = v
+	b.pre = append(b.pre, fmt.Sprintf("%s := new(%s)", v, b.typeStr(elem)))
+	if st, ok := under(elem).(*types.Struct); ok {
+		b.fillStruct(v, elem, st, nil, ref, depth)
+	} else {
+		name := cellHeap(elem)
+		if sym, ok := b.heapSym(name); ok {
+			val := b.build(fmt.Sprintf("(select %s %d)", sym, ref), elem, depth+1)
+			b.pre = append(b.pre, fmt.Sprintf("*%s = %s", v, val))
+		}
+	}
+	return v
+}
+
+func (b *inputBuilder) fillStruct(v string, root types.Type, st *types.Struct, path []int, ref int64, depth int) {
+	for i := 0; i < st.NumFields(); i++ {
+		f := st.Field(i)
+		p := append(append([]int(nil), path...), i)
+		sel := v
+		t := root
+		for _, k := range p {
+			s := under(t).(*types.Struct)
+			sel += "." + s.Field(k).Name()
+			t = s.Field(k).Type()
+		}
+		if inner, ok := under(f.Type()).(*types.Struct); ok {
+			b.fillStruct(v, root, inner, p, ref, depth)
+			continue
+		}
+		name, _ := fieldHeap(root, p)
+		sym, ok := b.heapSym(name)
+		if !ok {
+			continue // never read by the function: zero value is as good as any
+		}
+		if arr, ok := under(f.Type()).(*types.Array); ok {
+			if isStruct(arr.Elem()) || arr.Len() > 512 {
+				continue
+			}
+			var terms []string
+			for k := int64(0); k < arr.Len(); k++ {
+				terms = append(terms, fmt.Sprintf("(select (select %s %d) %d)", sym, ref, k))
+			}
+			vals, err := b.o.values(terms)
+			if err != nil {
+				b.fail = err.Error()
+				return
+			}
+			for k := int64(0); k < arr.Len(); k++ {
+				val := vals[terms[k]]
+				if isBool(arr.Elem()) {
+					if val == "true" {
+						b.pre = append(b.pre, fmt.Sprintf("%s[%d] = true", sel, k))
+					}
+					continue
+				}
+				if n, ok := smtInt(val); ok && n != 0 {
+					b.pre = append(b.pre, fmt.Sprintf("%s[%d] = %s(%d)", sel, k, b.typeStr(arr.Elem()), n))
+				}
+			}
+			continue
+		}
+		val := b.build(fmt.Sprintf("(select %s %d)", sym, ref), f.Type(), depth+1)
+		if b.fail != "" {
+			return
+		}
+		b.pre = append(b.pre, fmt.Sprintf("%s = %s", sel, val))
+	}
+}
+
+func (b *inputBuilder) buildSlice(term string, t types.Type, u *types.Slice, depth int) string {
+	vals, err := b.o.values([]string{"(sl.arr " + term + ")", "(sl.off " + term + ")", "(sl.len " + term + ")", "(sl.cap " + term + ")"})
+	if err != nil {
+		b.fail = err.Error()
+		return "nil"
+	}
+	arr, _ := smtInt(vals["(sl.arr "+term+")"])
+	off, _ := smtInt(vals["(sl.off "+term+")"])
+	ln, _ := smtInt(vals["(sl.len "+term+")"])
+	cp, _ := smtInt(vals["(sl.cap "+term+")"])
+	if arr == 0 {
+		return fmt.Sprintf("%s(nil)", b.typeStr(t))
+	}
+	if off < 0 || ln < 0 || cp < ln || off+cp > 1<<16 {
+		b.fail = "slice geometry in model is unreasonable"
+		return "nil"
+	}
+	key := fmt.Sprintf("%s@%d", typeKey(u.Elem()), arr)
+	back, ok := b.backing[key]
+	size := off + cp
+	if !ok {
+		back = b.newVar("back")
+		b.backing[key] = back
+		b.pre = append(b.pre, fmt.Sprintf("%s := make([]%s, %d)", back, b.typeStr(u.Elem()), size+64))
+	}
+	// contents of the visible part
+	for _, l := range leavesOf(u.Elem()) {
+		name, lt := elemHeap(u.Elem(), l.Path)
+		sym, ok := b.heapSym(name)
+		if !ok {
+			continue
+		}
+		var terms []string
+		for i := int64(0); i < ln; i++ {
+			terms = append(terms, fmt.Sprintf("(select (select %s %d) %d)", sym, arr, off+i))
+		}
+		if isBasicScalar(lt) {
+			vs, err := b.o.values(terms)
+			if err != nil {
+				b.fail = err.Error()
+				return "nil"
+			}
+			for i := int64(0); i < ln; i++ {
+				sel := fmt.Sprintf("%s[%d]", back, off+i)
+				if l.Name != "" {
+					sel += "." + l.Name
+				}
+				v := vs[terms[i]]
+				switch {
+				case isBool(lt):
+					b.pre = append(b.pre, fmt.Sprintf("%s = %s", sel, v))
+				case isFloat(lt):
+					b.pre = append(b.pre, fmt.Sprintf("%s = %s(%s)", sel, b.typeStr(lt), realToGo(v)))
+				default:
+					n, _ := smtInt(v)
+					b.pre = append(b.pre, fmt.Sprintf("%s = %s(%d)", sel, b.typeStr(lt), n))
+				}
+			}
+			continue
+		}
+		for i := int64(0); i < ln; i++ {
+			sel := fmt.Sprintf("%s[%d]", back, off+i)
+			if l.Name != "" {
+				sel += "." + l.Name
+			}
+			v := b.build(terms[i], lt, depth+1)
+			if b.fail != "" {
+				return "nil"
+			}
+			b.pre = append(b.pre, fmt.Sprintf("%s = %s", sel, v))
+		}
+	}
+	return fmt.Sprintf("%s(%s[%d:%d:%d])", b.typeStr(t), back, off, off+ln, off+cp)
+}
+
+func isBasicScalar(t types.Type) bool {
+	b, ok := under(t).(*types.Basic)
+	return ok && b.Info()&(types.IsInteger|types.IsBoolean|types.IsFloat) != 0
+}
+
+// paramExpr builds the Go value of a parameter (struct parameters leaf by leaf).
+func (b *inputBuilder) paramExpr(name string, t types.Type) string {
+	if st, ok := under(t).(*types.Struct); ok {
+		var fields []string
+		for i := 0; i < st.NumFields(); i++ {
+			f := st.Field(i)
+			fields = append(fields, fmt.Sprintf("%s: %s", f.Name(), b.paramExpr(name+"."+f.Name(), f.Type())))
+		}
+		return fmt.Sprintf("%s{%s}", b.typeStr(t), strings.Join(fields, ", "))
+	}
+	sym := quoteSym("p!" + name)
+	if !b.vc.declared[sym] {
+		return fmt.Sprintf("*new(%s)", b.typeStr(t))
+	}
+	return b.build(sym, t, 0)
+}
+
+// ---- the generated test ----
+
+var reTestFail = regexp.MustCompile(`(?m)^\s*(verif_replay_test\.go:\d+: .*|panic: .*|--- FAIL.*)$`)
+
+func tryReplay(p *Program, rep *FuncReport, o *Obligation, repo, rdir string) (bool, map[string]interface{}) {
+	info := map[string]interface{}{}
+	fn := p.FuncByKey[rep.Key]
+	if fn == nil || o.SmtFile == "" {
+		return false, nil
+	}
+	orc, err := newOracle(o.SmtFile)
+	if err != nil {
+		info["error"] = err.Error()
+		return false, info
+	}
+	b := &inputBuilder{p: p, vc: rep.VC, o: orc, pkg: fn.Pkg.Pkg, imports: map[string]string{}, objs: map[string]string{}, backing: map[string]string{}}
+	var args []string
+	var recvArg string
+	for i, prm := range fn.Params {
+		e := b.paramExpr(prm.Name(), prm.Type())
+		if b.fail != "" {
+			info["error"] = "cannot build input " + prm.Name() + ": " + b.fail
+			return false, info
+		}
+		if i == 0 && fn.Signature.Recv() != nil {
+			recvArg = e
+		} else {
+			args = append(args, e)
+		}
+	}
+	src := genReplayTest(p, rep, fn, b, recvArg, args)
+	if src == "" {
+		info["error"] = "could not generate a replay test"
+		return false, info
+	}
+	os.MkdirAll(rdir, 0o755)
+	base := safeFile(o.Name)
+	testFile := filepath.Join(rdir, base+"_test.go.txt")
+	os.WriteFile(testFile, []byte(src), 0o644)
+	pkgDir := filepath.Dir(p.Fset.Position(fn.Pos()).Filename)
+	ov := map[string]interface{}{"Replace": map[string]string{filepath.Join(pkgDir, "verif_replay_test.go"): testFile}}
+	ovFile := filepath.Join(rdir, base+"_overlay.json")
+	ob, _ := json.Marshal(ov)
+	os.WriteFile(ovFile, ob, 0o644)
+	rel, _ := filepath.Rel(repo, pkgDir)
+	ctx, cancel := context.WithTimeout(context.Background(), 120*time.Second)
+	defer cancel()
+	cmd := exec.CommandContext(ctx, "go", "test", "-tags", "verif", "-overlay", ovFile, "-vet=off", "-count=1", "-timeout", "60s", "-run", "^TestVerifReplay$", "./"+rel)
+	cmd.Dir = repo
+	cmd.Env = append(os.Environ(), "GOFLAGS=-mod=mod", "GOPROXY=off", "GOSUMDB=off", "GOTOOLCHAIN=local")
+	var buf bytes.Buffer
+	cmd.Stdout, cmd.Stderr = &buf, &buf
+	runErr := cmd.Run()
+	out := buf.String()
+	info["test_source"] = testFile
+	info["command"] = fmt.Sprintf("cd %s && go test -tags verif -overlay %s -vet=off -count=1 -timeout 60s -run '^TestVerifReplay$' ./%s", repo, ovFile, rel)
+	info["output"] = lastLines(out, 25)
+	if runErr != nil && strings.Contains(out, "REPLAY-VIOLATION") {
+		info["reproduced"] = true
+		return true, info
+	}
+	if runErr != nil && !strings.Contains(out, "REPLAY-VIOLATION") {
+		info["reproduced"] = false
+		info["note"] = "the generated test did not build or failed for another reason"
+		return false, info
+	}
+	info["reproduced"] = false
+	return false, info
+}
+
+func genReplayTest(p *Program, rep *FuncReport, fn *ssa.Function, b *inputBuilder, recv string, args []string) string {
+	c := rep.Contract
+	sig := fn.Signature
+	rc := &racCompiler{p: p, b: b, fn: fn, vars: map[string]racVar{}}
+	var body strings.Builder
+	for _, s := range b.pre {
+		body.WriteString("\t" + s + "\n")
+	}
+	// parameters
+	for i, prm := range fn.Params {
+		var e string
+		if i == 0 && sig.Recv() != nil {
+			e = recv
+		} else if sig.Recv() != nil {
+			e = args[i-1]
+		} else {
+			e = args[i]
+		}
+		fmt.Fprintf(&body, "\tvar in_%s %s = %s\n", prm.Name(), b.typeStr(prm.Type()), e)
+		fmt.Fprintf(&body, "\told_%s := verifDeepCopy(in_%s).(%s)\n\t_ = old_%s\n", prm.Name(), prm.Name(), b.typeStr(prm.Type()), prm.Name())
+		rc.vars[prm.Name()] = racVar{"in_" + prm.Name(), "old_" + prm.Name(), prm.Type()}
+	}
+	// the call
+	var call string
+	var callArgs []string
+	start := 0
+	if sig.Recv() != nil {
+		start = 1
+	}
+	for i := start; i < len(fn.Params); i++ {
+		a := "in_" + fn.Params[i].Name()
+		if sig.Variadic() && i == len(fn.Params)-1 {
+			a += "..."
+		}
+		callArgs = append(callArgs, a)
+	}
+	if sig.Recv() != nil {
+		call = fmt.Sprintf("in_%s.%s(%s)", fn.Params[0].Name(), fn.Name(), strings.Join(callArgs, ", "))
+	} else {
+		call = fmt.Sprintf("%s(%s)", fn.Name(), strings.Join(callArgs, ", "))
+	}
+	var resNames []string
+	for i := 0; i < sig.Results().Len(); i++ {
+		n := fmt.Sprintf("res%d", i)
+		resNames = append(resNames, n)
+		rv := sig.Results().At(i)
+		rc.vars[fmt.Sprintf("result%d", i)] = racVar{n, n, rv.Type()}
+		if rv.Name() != "" && rv.Name() != "_" {
+			rc.vars[rv.Name()] = racVar{n, n, rv.Type()}
+		}
+		if sig.Results().Len() == 1 {
+			rc.vars["result"] = racVar{n, n, rv.Type()}
+		}
+		fmt.Fprintf(&body, "\tvar %s %s\n\t_ = %s\n", n, b.typeStr(rv.Type()), n)
+	}
+	body.WriteString("\tfunc() {\n\t\tdefer func() {\n\t\t\tif r := recover(); r != nil {\n")
+	if c.MayPanic {
+		body.WriteString("\t\t\t\tt.Logf(\"panic (allowed by the contract): %v\", r)\n\t\t\t\tpanicked = true\n")
+	} else {
+		body.WriteString("\t\t\t\tt.Fatalf(\"REPLAY-VIOLATION: the function panicked: %v\", r)\n")
+	}
+	body.WriteString("\t\t\t}\n\t\t}()\n")
+	if len(resNames) > 0 {
+		fmt.Fprintf(&body, "\t\t%s = %s\n", strings.Join(resNames, ", "), call)
+	} else {
+		fmt.Fprintf(&body, "\t\t%s\n", call)
+	}
+	body.WriteString("\t}()\n\tif panicked {\n\t\treturn\n\t}\n")
+	// postconditions
+	checked := 0
+	for _, e := range c.Ensures {
+		code, ok := rc.compileBool(e.E)
+		if !ok {
+			fmt.Fprintf(&body, "\t// not executable: %s (%s)\n", e.Name(), rc.why)
+			rc.why = ""
+			continue
+		}
+		checked++
+		fmt.Fprintf(&body, "\tif !(%s) {\n\t\tt.Fatalf(\"REPLAY-VIOLATION: %s does not hold: %%s\", %s)\n\t}\n", code, e.Name(), strconv.Quote(e.Text))
+	}
+	var imp strings.Builder
+	imp.WriteString("import (\n\t\"reflect\"\n\t\"testing\"\n\t\"unsafe\"\n")
+	var paths []string
+	for path := range b.imports {
+		paths = append(paths, path)
+	}
+	sort.Strings(paths)
+	for _, path := range paths {
+		fmt.Fprintf(&imp, "\t%s %q\n", b.imports[path], path)
+	}
+	imp.WriteString(")\n")
+	return fmt.Sprintf("//go:build verif\n\npackage %s\n\n%s\n// Generated by govc from the solver model of obligation %s.\nfunc TestVerifReplay(t *testing.T) {\n\tpanicked := false\n\t_ = panicked\n%s\tt.Logf(\"no violation reproduced (%d postconditions checked at run time)\")\n}\n\n%s",
+		fn.Pkg.Pkg.Name(), imp.String(), rep.Short, body.String(), checked, deepCopySrc)
+}
+
+const deepCopySrc = `var _ = unsafe.Pointer(nil)
+
+// verifDeepCopy copies a value including everything reachable through pointers and slices.
+func verifDeepCopy(x interface{}) interface{} {
+	if x == nil {
+		return nil
+	}
+	seen := map[uintptr]reflect.Value{}
+	v := reflect.ValueOf(x)
+	out := reflect.New(v.Type()).Elem()
+	verifCopyInto(out, v, seen)
+	return out.Interface()
+}
+
+func verifSettable(v reflect.Value) reflect.Value {
+	if v.CanSet() {
+		return v
+	}
+	if v.CanAddr() {
+		return reflect.NewAt(v.Type(), unsafe.Pointer(v.UnsafeAddr())).Elem()
+	}
+	return v
+}
+
+func verifReadable(v reflect.Value) reflect.Value {
+	if v.CanInterface() {
+		return v
+	}
+	if v.CanAddr() {
+		return reflect.NewAt(v.Type(), unsafe.Pointer(v.UnsafeAddr())).Elem()
+	}
+	c := reflect.New(v.Type()).Elem()
+	return c
+}
+
+func verifCopyInto(dst, src reflect.Value, seen map[uintptr]reflect.Value) {
+	dst = verifSettable(dst)
+	switch src.Kind() {
+	case reflect.Ptr:
+		if src.IsNil() {
+			return
+		}
+		if d, ok := seen[src.Pointer()]; ok {
+			dst.Set(d)
+			return
+		}
+		n := reflect.New(src.Type().Elem())
+		seen[src.Pointer()] = n
+		verifCopyInto(n.Elem(), src.Elem(), seen)
+		dst.Set(n)
+	case reflect.Slice:
+		if src.IsNil() {
+			return
+		}
+		n := reflect.MakeSlice(src.Type(), src.Len(), src.Len())
+		for i := 0; i < src.Len(); i++ {
+			verifCopyInto(n.Index(i), src.Index(i), seen)
+		}
+		dst.Set(n)
+	case reflect.Struct:
+		tmp := reflect.New(src.Type()).Elem()
+		tmp.Set(verifReadable(src))
+		for i := 0; i < src.NumField(); i++ {
+			verifCopyInto(dst.Field(i), tmp.Field(i), seen)
+		}
+	case reflect.Interface:
+		if src.IsNil() {
+			return
+		}
+		inner := reflect.New(src.Elem().Type()).Elem()
+		verifCopyInto(inner, src.Elem(), seen)
+		dst.Set(inner)
+	case reflect.Array:
+		for i := 0; i < src.Len(); i++ {
+			verifCopyInto(dst.Index(i), src.Index(i), seen)
+		}
+	default:
+		dst.Set(verifReadable(src))
+	}
+}
+`
